@@ -290,6 +290,18 @@ func c15(r *rt.Run) {
 			c15Case(r, src, ps.pool.EDBs[ei], (i+ei)%4 == 0)
 		}
 	})
+	// goals whose atoms have equal hashes without being equal (a two-element list and the pair of the same elements, a
+	// one-element list and a number): explanations must keep them apart. These three-rule programs are beyond the quick
+	// tier's subsets of pool B, so they are named here.
+	for _, src := range []string{
+		"Decl n(A).\nDecl k(A,B).\nc(P) :- n(X), P = fn:list(X, X).\nc(P) :- n(X) |> let P = fn:pair(X, X).\nd(X,Y) :- c(P), :match_pair(P, X, Y).\n",
+		"Decl n(A).\nDecl k(A,B).\nc(P) :- n(X), P = fn:pair(X, X).\nc(P) :- n(X), P = fn:list(X, X).\nd(X,Y) :- c(P), :match_cons(P, X, T), :match_cons(T, Y, _).\n",
+		"Decl n(A).\nDecl k(A,B).\nc(P) :- n(X), P = [1].\nc(65792) :- n(X).\nd(X) :- c(P), :match_cons(P, X, _).\nd(P) :- c(P), P > 5.\n",
+	} {
+		for _, edb := range [][]string{{"n(0)"}, {"n(0)", "n(1)"}, {"n(1)", "k(1,2)"}} {
+			c15Case(r, src, edb, true)
+		}
+	}
 	// programs with do-transforms (recorded mode): every aggregating rule of pool A over count and sum, single-atom bodies
 	// (incl. a repeated variable), multi-atom bodies and bodies over the closure t
 	ar := gen.AggRules([]string{"fn:count()", "fn:sum(V)"})
